@@ -73,7 +73,14 @@ class Router:
                             const.BLOBEnable.ALSO,
                             const.BLOBEnable.ONLY,
                         )
-                    ) or (not is_blob and client_blob_policy == const.BLOBEnable.NEVER):
+                    ) or (
+                        not is_blob
+                        and client_blob_policy
+                        in (
+                            const.BLOBEnable.NEVER,
+                            const.BLOBEnable.ALSO,
+                        )
+                    ):
                         client.message_from_device(message)
 
     def process_enable_blob(self, message: EnableBLOB, sender: SenderType):
